@@ -15,6 +15,7 @@ EXPLANATION = (
     "vertex is all-zero (so fixing vertices - isolated ones, landmarks, all of them - never makes the system singular)."
 )
 BOUNDS = {"quick": "14 structures (none/one/several/all fixed, fixed landmark, fixed vertex without edges, under-constrained free vertex) x max_iter 1..3 (1 for SE(3)) x fix_first_pose", "thorough": "the same structures and all fixed subsets of 5 base graphs x max_iter 1..5"}
+BOUNDS = {k: v + "; 5 two-call histories (flags edited between consecutive optimize() calls on one Graph object)" for k, v in BOUNDS.items()}
 OUTSIDE = "rounding; IEEE semantics of pose [+] 0 is no longer relied upon (fixed vertices are skipped by the update loop); iteration counts beyond the bound (each iteration is verified from an arbitrary symbolic state)"
 ASSUMPTIONS = ["solver contract as described", "information symmetric", "ids distinct", "chi^2 >= 0"]
 
@@ -53,6 +54,77 @@ def reduced_system(P, kinds, edges, eobjs, fixed):
     return b, H, free, offs, dims
 
 
+def check_systems(P, systems, kinds, edges, eobjs, eff):
+    """every linear system handed to the solver (symbolic mode), or the last assembled one (concrete mode)"""
+    np = P.np
+    all_dims = [COMPACT[k] for k in kinds]
+    all_offs = [sum(all_dims[:i]) for i in range(len(kinds))]
+    b_red, H_red, free, offs, dims = reduced_system(P, kinds, edges, eobjs, eff)
+    for A, rhs in systems:
+        for i in eff:
+            lo, d = all_offs[i], all_dims[i]
+            P.check_eq("fixed_diag_identity", A[lo : lo + d, lo : lo + d], np.eye(d))
+            P.check_eq("fixed_rhs_zero", rhs[lo : lo + d], np.zeros(d))
+            for j in range(len(kinds)):
+                if j != i:
+                    lj, dj = all_offs[j], all_dims[j]
+                    P.check_eq("fixed_offdiag_zero_row", A[lo : lo + d, lj : lj + dj], np.zeros((d, dj)))
+                    P.check_eq("fixed_offdiag_zero_col", A[lj : lj + dj, lo : lo + d], np.zeros((dj, d)))
+        for i in free:
+            li, di = all_offs[i], all_dims[i]
+            P.check_eq("reduced_rhs", rhs[li : li + di], -b_red[offs[i] : offs[i] + di])
+            for j in free:
+                lj, dj = all_offs[j], all_dims[j]
+                P.check_eq("reduced_block", A[li : li + di, lj : lj + dj], H_red[offs[i] : offs[i] + di, offs[j] : offs[j] + dj])
+
+
+def _history(kinds, edges, fixed1, ff1, change, ff2, it2):
+    """two consecutive optimize() calls on the same Graph object with the fixed flags edited in between: the second call
+    must honour the flags as they are when it starts (no stale state from the first call)"""
+
+    def fn(P, g):
+        from .common import mk_pose
+
+        np = P.np
+        env = install_stubs(P, g, solver=contract_solver(P) if P.symbolic else None)
+        graph, verts, eobjs, ids = structure_graph(P, g, kinds, edges, fixed1, symbolic_ids=False, epoch_chi2=True)
+        import warnings
+
+        with warnings.catch_warnings():
+            warnings.simplefilter("ignore")
+            graph.optimize(tol=0.0, max_iter=1, fix_first_pose=ff1, verbose=False)
+        for i, val in change.items():
+            verts[i].fixed = val
+            if val:
+                verts[i].pose = mk_pose(P, g, kinds[i], "pin%d" % i, wrapped=True)  # the user pins it somewhere else
+        flags = [v.fixed for v in verts]
+        eff = {i for i, f in enumerate(flags) if f} | ({0} if ff2 else set())
+        init = [v.pose.to_array() for v in verts]
+        n_before = len(env.solves)
+        with warnings.catch_warnings():
+            warnings.simplefilter("ignore")
+            res = graph.optimize(tol=P.real("tol", lo=0.0, hi=1.0), max_iter=it2, fix_first_pose=ff2, verbose=False)
+        for i, v in enumerate(verts):
+            P.check("flag_%d" % i, v.fixed == (flags[i] or (ff2 and i == 0)))
+            if i in eff:
+                P.check_eq("fixed_pose_unchanged_%d" % i, v.pose.to_array(), init[i])
+        systems = [(A, rhs) for A, rhs, _dx in env.solves[n_before:]] if P.symbolic else [(dense(graph._hessian), -np.array(graph._gradient))]
+        check_systems(P, systems, kinds, edges, eobjs, eff)
+        P.check("ran", res.num_iterations >= 1)
+
+    return fn
+
+
+HISTORIES = [
+    # kinds, edges, fixed before call 1, ff1, {vertex: new flag} between the calls, ff2
+    (["SE2", "SE2", "R2"], [(0, 1), (1, 2)], set(), True, {2: True}, False),
+    (["SE2", "SE2", "R2"], [(0, 1), (1, 2)], set(), True, {0: False, 1: True}, False),
+    (["R2", "SE2", "R2"], [(0, 1), (1, 2), (0, 2)], {1}, False, {1: False, 2: True}, True),
+    (["R3", "R3"], [(0, 1)], set(), True, {0: False}, False),
+    (["SE2", "R2", "R2"], [(0, 1), (0, 2)], {1, 2}, True, {1: False}, False),
+]
+
+
 def _case(kinds, edges, fixed, ff, max_iter):
     def fn(P, g):
         np = P.np
@@ -61,8 +133,6 @@ def _case(kinds, edges, fixed, ff, max_iter):
         eff = set(fixed) | ({0} if ff else set())
         init = [v.pose.to_array() for v in verts]
         flags = [v.fixed for v in verts]
-        all_dims = [COMPACT[k] for k in kinds]
-        all_offs = [sum(all_dims[:i]) for i in range(len(kinds))]
         tol = P.real("tol", lo=0.0, hi=1.0)
         import warnings
 
@@ -73,25 +143,8 @@ def _case(kinds, edges, fixed, ff, max_iter):
             P.check("flag_%d" % i, v.fixed == (flags[i] or (ff and i == 0)))
             if i in eff:
                 P.check_eq("fixed_pose_unchanged_%d" % i, v.pose.to_array(), init[i])
-        # every linear system handed to the solver (symbolic mode), or the last assembled one (concrete mode)
         systems = [(A, rhs) for A, rhs, _dx in env.solves] if P.symbolic else [(dense(graph._hessian), -np.array(graph._gradient))]
-        b_red, H_red, free, offs, dims = reduced_system(P, kinds, edges, eobjs, eff)
-        for A, rhs in systems:
-            for i in eff:
-                lo, d = all_offs[i], all_dims[i]
-                P.check_eq("fixed_diag_identity", A[lo : lo + d, lo : lo + d], np.eye(d))
-                P.check_eq("fixed_rhs_zero", rhs[lo : lo + d], np.zeros(d))
-                for j in range(len(kinds)):
-                    if j != i:
-                        lj, dj = all_offs[j], all_dims[j]
-                        P.check_eq("fixed_offdiag_zero_row", A[lo : lo + d, lj : lj + dj], np.zeros((d, dj)))
-                        P.check_eq("fixed_offdiag_zero_col", A[lj : lj + dj, lo : lo + d], np.zeros((dj, d)))
-            for i in free:
-                li, di = all_offs[i], all_dims[i]
-                P.check_eq("reduced_rhs", rhs[li : li + di], -b_red[offs[i] : offs[i] + di])
-                for j in free:
-                    lj, dj = all_offs[j], all_dims[j]
-                    P.check_eq("reduced_block", A[li : li + di, lj : lj + dj], H_red[offs[i] : offs[i] + di, offs[j] : offs[j] + dj])
+        check_systems(P, systems, kinds, edges, eobjs, eff)
         P.check("ran", res.num_iterations >= 1 and res.num_iterations <= max_iter)
 
     return fn
@@ -142,6 +195,9 @@ def cases(tier):
     for s in structs:
         for mi in its:
             out.append(Case(_name(s, mi), _case(*s, mi), timeout=10, old_timeout=20, validate=1, feas_timeout_ms=1500))
+    for hi, h in enumerate(HISTORIES):
+        for it2 in (1, 2) if tier == "quick" else (1, 2, 3):
+            out.append(Case("history%d_it%d" % (hi, it2), _history(*h, it2), timeout=10, old_timeout=20, validate=1, feas_timeout_ms=1500))
     for s in SE3_STRUCTS:
         for mi in (1,) if tier == "quick" else (1, 2):
             out.append(Case(_name(s, mi), _case(*s, mi), timeout=10, old_timeout=20, validate=1, feas_timeout_ms=1500))
